@@ -14,6 +14,16 @@ def is_normaliser(f):
     return reads_unit and reads_table
 
 
+def is_period_normaliser(f):
+    """a function that expresses one sampling period in the default unit: reads sampling_period, sampling_period_unit, the unit table and the default unit"""
+    if f is None or not hasattr(f, 'node'):
+        return False
+    attrs = [n.attr for n in ast.walk(f.node) if isinstance(n, ast.Attribute)]
+    table = [n for n in ast.walk(f.node) if isinstance(n, ast.Subscript) and isinstance(n.value, ast.Attribute) and n.value.attr == 'U']
+    keys = {ast.unparse(n.slice).split('.')[-1] for n in table}
+    return 'sampling_period' in attrs and {'sampling_period_unit', 'unit'} <= keys
+
+
 def normalisers_used(ix, cls, f):
     out = []
     for v in ast.walk(f.node):
